@@ -30,6 +30,7 @@ func c05(e *Env) {
 	e.c05Pairing()
 	e.spawnRules("R8", "R8")
 	e.disconnectRule("R6")
+	e.sinkConnectRule("R6")
 	e.slotMutexSpansLoop("R9")
 	// forwarding loops of Process.Run (also part of C04's delivery obligations)
 	e.forwardAllOutputs("R3")
